@@ -322,6 +322,42 @@ def reuse_exporter(ctx, W, S, plan, exporter, allow, ops):
         ctx.probes["exporter_reused"] += 1
         if round_ == 0:
             ctx.probes["refused_call_retried_when_applicable"] += 1
+    # the caller revises the domain between two uses of the exporter (as a model-learning loop does): an action of
+    # exporter.domain is replaced by a revised schema (here: the same action without effects); the next plan must follow
+    # the domain as it is now
+    if ops.chance(1, 2):
+        import copy
+        aname = ops.pick(sorted(W.D["actions"]))
+        D2 = dict(W.D, actions={k: (dict(v, eff=[]) if k == aname else v) for k, v in W.D["actions"].items()})
+        try:
+            d_var = C.parse_domain(ctx, G.render_domain(D2), "domain-revised.pddl")
+        except Exception:
+            return
+        exporter.domain.actions[aname] = d_var.actions[aname]
+        W2 = copy.copy(W)
+        W2.D = D2
+        c = None
+        for _ in range(6):
+            cc = G.gen_call(ops, W2.D, W2.P, aname)
+            if cc is None:
+                break
+            S2 = C.force_applicable(S, W2.action(aname), cc[1], W2)
+            try:
+                if interp.applicable(S2, W2.action(aname), cc[1], W2.D, W2.objs):
+                    c = cc
+                    break
+            except interp.Undefined:
+                pass
+        if c is None:
+            return
+        plan3 = [(c, "valid", S2)]  # no effects: the successor is the pre-state
+        try:
+            p3 = C.parse_problem(ctx, W.problem_text(S2), exporter.domain, "problem-revised.pddl")
+            tr = exporter.parse_plan(p3, action_sequence=[C.fmt_call(*c)])
+        except Exception as e:
+            raise Violation("C04/plan-rejected", site + " after the domain was revised", f"{type(e).__name__}: {e}")
+        check_triplets(ctx, W2, S2, plan3, tr, allow, site + " after the domain was revised")
+        ctx.probes["domain_revised_between_uses"] += 1
 
 
 def direct(ctx, op, st, kind, want, c):
